@@ -49,6 +49,7 @@ func init() {
 		harnessPkg + ".AllowTimerFires": hAllowFires,
 		harnessPkg + ".TimerFires":      hTimerFires,
 		harnessPkg + ".Now":             func(in *Interp, g *G, fv *FuncV, a []Value) Value { return in.st.now },
+		harnessPkg + ".Perturb":         func(in *Interp, g *G, fv *FuncV, a []Value) Value { return nil },
 		harnessPkg + ".IsSymbolic":      func(in *Interp, g *G, fv *FuncV, a []Value) Value { return in.tc.True },
 		harnessPkg + ".AtoiOK":          hAtoiOK,
 		harnessPkg + ".AtoiVal":         hAtoiVal,
